@@ -31,7 +31,7 @@ try:
     k = os.path.basename(os.path.normpath(seed_dir))
     os.makedirs(os.path.join(wt, ".seed"), exist_ok=True)
     shutil.copytree(seed_dir, os.path.join(wt, ".seed", k))
-    demo_cmd = meta["demo_cmd"]
+    demo_cmd = meta["demo_cmd"].replace("cd WORKTREE && ", "").replace("WORKTREE", wt)
     rc_clean, out_clean = sh(demo_cmd, cwd=wt)
     res["demo_passes_clean"] = rc_clean == 0
     res["ran"].append("clean worktree: " + demo_cmd + " -> exit %d" % rc_clean)
@@ -47,7 +47,7 @@ try:
     rc_s, out_s = sh("go build ./... && go test -count=1 ./...", cwd=wt)
     res["suite_passes_with_patch"] = rc_s == 0
     if rc_s != 0:
-        res["suite_output"] = out_s[-1500:]
+        res["suite_output"] = "\n".join([l for l in out_s.splitlines() if l.startswith(("FAIL", "---", "panic")) or "FAIL" in l][:20]) + "\n" + out_s[-800:]
     res["ran"].append("patched worktree: go build ./... && go test -count=1 ./... -> exit %d" % rc_s)
     res["checks"] = {}
     for c in checks:
